@@ -154,3 +154,159 @@ Proof.
     + exists 0%nat. vm_compute. repeat split; intros q Hq; repeat (destruct Hq as [<-|Hq]; [auto with arith|]); try destruct Hq.
     + exists 1%nat. vm_compute. repeat split; intros q Hq; repeat (destruct Hq as [<-|Hq]; [auto with arith|]); try destruct Hq.
 Qed.
+
+(* ================= alias-aware model (Datalog/SolveUF.v): substitutions are union-finds in
+   which a variable may be aliased to another variable (X = Y with both sides unbound), as
+   in unionfind/unionfind.go; Solve.v treats that situation as an error. Proofs:
+   Datalog/SolveUFProofs.v. *)
+From MV Require Import Datalog.SolveUF Datalog.SolveUFProofs.
+
+(* ---- (a) conservativity: wherever the alias-free evaluator Solve.v answers, the
+   union-find evaluator (strict = false: the Go code) gives the same answer - the same
+   solutions (read as union-finds without aliases), the same facts, the same program
+   outcome. Solve.v answers None only at a Go error or at an aliasing equality. *)
+Theorem solve_uf_conservative :
+  forall (Sneg : list fact) (sel : nat -> list fact) (k : nat) (body : list premise) (sols R : list subst),
+    Forall (fun s => NoDup (map fst s)) sols ->
+    solve Sneg sel k body sols = Some R ->
+    solve_uf false Sneg sel k body (map (map (fun vc => (fst vc, VConst (snd vc)))) sols)
+    = Some (map (map (fun vc => (fst vc, VConst (snd vc)))) R).
+Proof. intros Sneg sel k body sols R Hs H. exact (proj1 (solve_inj Sneg sel body k sols R Hs H)). Qed.
+Print Assumptions solve_uf_conservative.
+
+Theorem eval_clause_uf_conservative :
+  forall (Sneg : list fact) (sel : nat -> list fact) (c : clause) (fs : list fact),
+    eval_clause Sneg sel c = Some fs -> eval_clause_uf false Sneg sel c = Some fs.
+Proof. exact eval_clause_inj. Qed.
+Print Assumptions eval_clause_uf_conservative.
+
+Theorem eval_program_uf_conservative :
+  forall (fuel : nat) (P : list clause) (layers : list (list Z)) (store init : list fact) (o : outcome (list fact)),
+    eval_program fuel P layers store init = o -> o <> EvalError ->
+    eval_program_uf false fuel P layers store init = o.
+Proof. exact SolveUFProofs.eval_program_uf_conservative. Qed.
+Print Assumptions eval_program_uf_conservative.
+
+(* hence strata_exact transfers: a finished run of the union-find model on a program on
+   which the alias-free model reports no error holds exactly the stratified least model *)
+Theorem strata_exact_uf :
+  forall (fuel : nat) (P : list clause) (layers : list (list Z)) (store init Res : list fact),
+    valid_stratification P layers ->
+    eval_program fuel P layers store init <> EvalError ->
+    eval_program_uf false fuel P layers store init = Ok Res ->
+    forall f, In f Res <-> slfp P layers (fun g => In g (add_all store init)) f.
+Proof. exact eval_program_uf_exact. Qed.
+Print Assumptions strata_exact_uf.
+
+(* ---- (c) every solution gives a constant to every variable that is an argument of a
+   positive atom, or one side of an equality whose other side is a constant or a function
+   application, or aliased - through any chain of variable = variable equalities of the
+   body, in either orientation, wherever they stand - to such a variable (must_bound).
+   uwf = the substitutions the evaluator builds (SolveUFProofs.uwf; the start [[]] is one). *)
+Theorem solve_uf_resolved :
+  forall (strict : bool) (Sneg : list fact) (sel : nat -> list fact) (k : nat) (body : list premise)
+         (sols R : list usubst) (t : usubst),
+    Forall uwf sols ->
+    solve_uf strict Sneg sel k body sols = Some R -> In t R ->
+    forall v, must_bound body v -> exists c, resolve t v = VConst c.
+Proof. intros. eapply solve_uf_resolved_all; eauto. Qed.
+Print Assumptions solve_uf_resolved.
+
+(* the evaluator looks variables up with the one-pass [resolve]; on every substitution it
+   produces that is what unionfind.find computes by following the parent chain (ufind:
+   the Go loop with fuel = number of bindings) *)
+Theorem resolve_is_find :
+  forall (strict : bool) (Sneg : list fact) (sel : nat -> list fact) (k : nat) (body : list premise)
+         (sols R : list usubst) (t : usubst),
+    Forall uwf sols ->
+    solve_uf strict Sneg sel k body sols = Some R -> In t R ->
+    forall v, ufind t v = resolve t v.
+Proof.
+  intros strict Sneg sel k body sols R t Hs H Ht. apply ufind_resolve.
+  exact (proj1 (solve_uf_props strict Sneg sel body k sols R Hs H t Ht)).
+Qed.
+Print Assumptions resolve_is_find.
+
+(* ---- (b) order independence. A run of the strict evaluator (an error where a negated
+   atom or a "!=" meets an unbound variable; otherwise the Go code: strict_run_is_go_run)
+   derives exactly the head instances under the valuations that satisfy every premise
+   (gsat: ground evaluation of each premise by itself, no substitution, no order) -
+   provided no variable standing as an argument in the body is defined by the transform
+   (analysis rejects such a clause). Therefore two clauses with the same declarative reading
+   derive the same facts whatever the order of their premises and the placement of their
+   equalities. *)
+Theorem uf_join_is_declarative :
+  forall (Sneg : list fact) (sel : nat -> list fact) (c : clause) (fs : list fact),
+    (forall v, In v (bvars (cbody c)) -> ~ In v (map fst (clet c))) ->
+    eval_clause_uf true Sneg sel c = Some fs ->
+    forall f, In f fs <-> exists rho, gsat Sneg sel 0 rho (cbody c) /\ ghead rho c = Some f.
+Proof. exact eval_clause_uf_declarative. Qed.
+Print Assumptions uf_join_is_declarative.
+
+Theorem strict_run_is_go_run :
+  forall (Sneg : list fact) (sel : nat -> list fact) (c : clause) (fs : list fact),
+    eval_clause_uf true Sneg sel c = Some fs -> eval_clause_uf false Sneg sel c = Some fs.
+Proof. exact eval_clause_uf_strict_lax. Qed.
+Print Assumptions strict_run_is_go_run.
+
+(* the step of the alias stream (checks/datalog_common.py alias_step), read backwards: c is
+   any clause that contains the equality W = V or V = W anywhere in its body; replacing W
+   by V everywhere (head, body, transform; the equality becomes V = V and stays where it
+   is, so body positions and delta rules are the same) gives the clause with one alias
+   less. Both derive the same facts, from the same stores, for every delta position.
+   alias_step's chains and trees of fresh variables are eliminated leaf by leaf. *)
+Theorem alias_elimination_sound :
+  forall (Sneg : list fact) (sel : nat -> list fact) (c : clause) (W V : Z) (fs' fs : list fact),
+    W <> V ->
+    In (PEq (TVar W) (TVar V)) (cbody c) \/ In (PEq (TVar V) (TVar W)) (cbody c) ->
+    (forall v, In v (bvars (cbody c)) -> ~ In v (map fst (clet c))) ->
+    eval_clause_uf true Sneg sel c = Some fs' ->
+    eval_clause_uf true Sneg sel (sub_clause W V c) = Some fs ->
+    forall f, In f fs' <-> In f fs.
+Proof. exact alias_elimination. Qed.
+Print Assumptions alias_elimination_sound.
+
+(* ---- examples. The C01-3 witness shape
+     p1(V1,V3) :- V4 = V2, p0(V1,V2) |> let V3 = fn:minus(V4,1).
+   V4 is aliased to V2 while both are unbound, reaches its constant through the chain
+   V4 -> V2 -> constant and is read by the transform only. *)
+Definition a_clause : clause :=
+  mkClause (mkAtom 1 [TVar 1; TVar 3]) [PEq (TVar 4) (TVar 2); PAtom (mkAtom 0 [TVar 1; TVar 2])]
+           [(3, TApp FMinus [TVar 4; TConst (CNum 1)])].
+Definition a_store : list fact := [(0, [CNum 7; CNum 10]); (0, [CNum 8; CNum 20])].
+
+(* the hypotheses of alias_elimination_sound are satisfiable, both clauses derive the two facts;
+   Solve.v stops at the aliasing equality *)
+Example alias_hypotheses_satisfiable :
+  4 <> 2 /\ In (PEq (TVar 4) (TVar 2)) (cbody a_clause) /\
+  (forall v, In v (bvars (cbody a_clause)) -> ~ In v (map fst (clet a_clause))) /\
+  eval_clause_uf true a_store (fun _ => a_store) a_clause = Some [(1, [CNum 7; CNum 9]); (1, [CNum 8; CNum 19])] /\
+  eval_clause_uf true a_store (fun _ => a_store) (sub_clause 4 2 a_clause) = Some [(1, [CNum 7; CNum 9]); (1, [CNum 8; CNum 19])] /\
+  eval_clause a_store (fun _ => a_store) a_clause = None.
+Proof.
+  split; [discriminate|]. split; [left; reflexivity|]. split; [|repeat split; vm_compute; reflexivity].
+  intros v Hv. vm_compute in Hv. intros Hl. vm_compute in Hl.
+  destruct Hl as [<-|[]]. repeat (destruct Hv as [Hv|Hv]; [discriminate Hv|]). destruct Hv.
+Qed.
+
+(* V4 must be bound: it is aliased to V2, an argument of the positive atom *)
+Example must_bound_example : must_bound (cbody a_clause) 4.
+Proof. apply (mb_alias_l _ 4 2); [left; reflexivity|]. apply (mb_atom _ (mkAtom 0 [TVar 1; TVar 2])); simpl; auto. Qed.
+
+(* conservativity is not vacuous: Solve.v answers on the clause without the alias *)
+Example conservative_hypothesis_satisfiable :
+  eval_clause a_store (fun _ => a_store) (sub_clause 4 2 a_clause) = Some [(1, [CNum 7; CNum 9]); (1, [CNum 8; CNum 19])].
+Proof. vm_compute. reflexivity. Qed.
+
+(* without strictness the elimination is false (the N19 reading of "!="):
+     p1(V1) :- p0(V1, V5), V2 != 3, V5 = V2.     V2 unbound at "!=": no solution in Go
+     p1(V1) :- p0(V1, V2), V2 != 3, V2 = V2.     two solutions
+   the strict evaluator reports the first clause (the analysis rejects it, fix N19) *)
+Definition n_clause : clause :=
+  mkClause (mkAtom 1 [TVar 1]) [PAtom (mkAtom 0 [TVar 1; TVar 5]); PIneq (TVar 2) (TConst (CNum 3)); PEq (TVar 5) (TVar 2)] [].
+Theorem alias_elimination_lax_refuted :
+  eval_clause_uf false a_store (fun _ => a_store) n_clause = Some [] /\
+  eval_clause_uf false a_store (fun _ => a_store) (sub_clause 5 2 n_clause) = Some [(1, [CNum 7]); (1, [CNum 8])] /\
+  eval_clause_uf true a_store (fun _ => a_store) n_clause = None.
+Proof. repeat split; vm_compute; reflexivity. Qed.
+Print Assumptions alias_elimination_lax_refuted.
